@@ -1,4 +1,7 @@
+pub mod alias;
 pub mod fault;
+pub mod tree;
+pub mod wt;
 
 use crate::runner::Engine;
 
@@ -6,6 +9,9 @@ pub fn engine_for(property: &str) -> Option<Box<dyn Engine>> {
     match property {
         "C03" => Some(Box::new(fault::FaultEngine::new("C03"))),
         "C05" => Some(Box::new(fault::FaultEngine::new("C05"))),
+        "C08" => Some(Box::new(alias::AliasEngine)),
+        "C09" => Some(Box::new(tree::TreeEngine::new("C09"))),
+        "C10" => Some(Box::new(tree::TreeEngine::new("C10"))),
         _ => None,
     }
 }
